@@ -1,6 +1,6 @@
 (* C15 — executable comparison functions used by the generated cases file (no proofs). *)
 From Coq Require Import List ZArith Bool Arith.
-From Dae Require Import C15_Spec C15_Model.
+From Dae Require Import C15_Spec C15_Model C15_Switch.
 Import ListNotations.
 Open Scope Z_scope.
 
@@ -18,14 +18,18 @@ Record set_dump := {
 Inductive obs_sel := OSok (d : nat) (lat : Z) (sel : ntype) | OSerr (e : sel_err) (lat : Z).
 
 Inductive obs_step :=
-| SOp (o : op) (dumps : list set_dump) (cbs : list (ntype * bool))
-| SSel (rq : reqtype) (strict : bool) (excl : option nat) (results : list obs_sel).
+| SOp (m : mop) (dumps : list set_dump) (cbs : list (ntype * bool))
+| SSel (rq : reqtype) (strict : bool) (excl : option nat) (results : list obs_sel)
+| SGetMin (t : ntype) (excl : option nat) (d : option nat) (lat : Z)      (* AliveDialerSet.GetMinLatency *)
+| SGetRand (t : ntype) (excl : option nat) (ds : list (option nat))       (* AliveDialerSet.GetRandExcluded, repeated *)
+| SPanic (m : mop).                                                       (* the operation panicked (last step) *)
 
 Record obs_case := {
   oc_n : nat; oc_offs : list Z; oc_tol : Z; oc_p0 : gpol;
   oc_init : list set_dump;       (* all six sets right after NewDialerGroup (empty for fixed) *)
   oc_init_cbs : list (ntype * bool);
-  oc_steps : list obs_step
+  oc_steps : list obs_step;
+  oc_foreign : bool              (* the history names a dialer that is not a member: only impl = raw model is judged *)
 }.
 
 Definition cfg_of (c : obs_case) : cfg :=
@@ -106,56 +110,97 @@ Definition check_dump (c : cfg) (s' : sstate) (g' : group) (impl_best model_best
 Definition upd_best (f : ntype -> option nat) (ds : list set_dump) : ntype -> option nat :=
   fold_left (fun f d => fun t => if ntype_eqb t (sd_t d) then sd_best d else f t) ds f.
 
-Fixpoint check_steps (c : cfg) (steps : list obs_step) (s : sstate) (g : group)
+Definition is_policy_mop (m : mop) : bool :=
+  match m with MOp (OPolicy _) | MSwitchSet _ _ | MPublish _ => true | _ => false end.
+
+(* a direct read of one set against the spec's view: nil iff no non-excluded alive node, else such a node *)
+Definition direct_ok (v : view) (excl : option nat) (d : option nat) : bool :=
+  match d with
+  | None => match cands excl v with [] => true | _ => false end
+  | Some x => existsb (Nat.eqb x) (cands excl v)
+  end.
+
+Fixpoint check_steps (c : cfg) (steps : list obs_step) (x : xstate) (g : group)
          (impl_best : ntype -> option nat) (n : N) : list (N * N) :=
   match steps with
   | [] => []
-  | SOp o dumps cbs :: rest =>
-      let s' := spec_step c s o in
-      let '(g', mcb) := step c g o in
-      let is_policy := match o with OPolicy _ => true | _ => false end in
+  | SOp m dumps cbs :: rest =>
+      let x' := xspec_step c x m in
+      let '(g', mcb) := xstep_raw c g m in
+      let ep := if xstep_raw_panics c g m then [(n, 1%N)] else [] in
+      let is_policy := is_policy_mop m in
       let model_best := fun t => a_best (model_sets g t) in
-      let e := flat_map (check_dump c s' g' impl_best model_best is_policy n) dumps in
+      let e := flat_map (check_dump c (sstate_of x') g' impl_best model_best is_policy n) dumps in
       let e5 := if list_eqb cb_eqb mcb cbs then [] else [(n, 5%N)] in
-      let impl_best' := match o with
-                        | OPolicy (GFixed _) => fun _ => None
+      let impl_best' := match m with
+                        | MOp (OPolicy (GFixed _)) => fun _ => None
                         | _ => upd_best impl_best dumps end in
-      e ++ e5 ++ check_steps c rest s' g' impl_best' (n + 1)%N
+      ep ++ e ++ e5 ++ check_steps c rest x' g' impl_best' (n + 1)%N
+  | SPanic m :: _ => if xstep_raw_panics c g m then [] else [(n, 1%N)]
   | SSel rq strict excl results :: rest =>
       let t := key_of rq in
+      let s := sstate_of x in
       let m := select c g rq strict excl in
       let e4 := if forallb (sel_matches_model m) results then [] else [(n, 4%N)] in
       let e6 := if forallb (fun o => select_ok c s t strict excl (res_of_obs o)) results then [] else [(n, 6%N)] in
       let e7 := if forallb (select_ok c s t strict excl) (res_of_model m) then [] else [(n, 7%N)] in
-      e4 ++ e6 ++ e7 ++ check_steps c rest s g impl_best (n + 1)%N
+      e4 ++ e6 ++ e7 ++ check_steps c rest x g impl_best (n + 1)%N
+  | SGetMin t excl d l :: rest =>
+      let '(md, ml) := get_min (model_sets g t) excl in
+      let v := x_views x t in
+      let e4 := if onat_eqb md d && (ml =? l) then [] else [(n, 4%N)] in
+      let e6 := if direct_ok v excl d then [] else [(n, 6%N)] in
+      let e7 := if direct_ok v excl md then [] else [(n, 7%N)] in
+      e4 ++ e6 ++ e7 ++ check_steps c rest x g impl_best (n + 1)%N
+  | SGetRand t excl ds :: rest =>
+      let mds := get_rand (model_sets g t) excl in
+      let v := x_views x t in
+      let e4 := if forallb (fun d => match d with
+                                     | Some y => existsb (Nat.eqb y) mds
+                                     | None => match mds with [] => true | _ => false end end) ds
+                then [] else [(n, 4%N)] in
+      let e6 := if forallb (direct_ok v excl) ds then [] else [(n, 6%N)] in
+      let e7 := if match mds with [] => direct_ok v excl None | _ => forallb (fun y => direct_ok v excl (Some y)) mds end
+                then [] else [(n, 7%N)] in
+      e4 ++ e6 ++ e7 ++ check_steps c rest x g impl_best (n + 1)%N
   end.
 
 Definition check_case (oc : obs_case) : list (N * N) :=
   let c := cfg_of oc in
-  let s0 := spec_init c (oc_p0 oc) in
+  let x0 := xspec_init c (oc_p0 oc) in
   let g0 := init_group c (oc_p0 oc) in
   let mcb0 := match oc_p0 oc with GSet sp => snd (build_sets c store0 sp) | GFixed _ => [] end in
-  let e0 := flat_map (check_dump c s0 g0 (fun _ => None) (fun _ => None) true 0%N) (oc_init oc) in
+  let e0 := flat_map (check_dump c (sstate_of x0) g0 (fun _ => None) (fun _ => None) true 0%N) (oc_init oc) in
   let e5 := if list_eqb cb_eqb mcb0 (oc_init_cbs oc) then [] else [(0%N, 5%N)] in
-  e0 ++ e5 ++ check_steps c (oc_steps oc) s0 g0 (upd_best (fun _ => None) (oc_init oc)) 1%N.
+  let all := e0 ++ e5 ++ check_steps c (oc_steps oc) x0 g0 (upd_best (fun _ => None) (oc_init oc)) 1%N in
+  if oc_foreign oc
+  then filter (fun e => match snd e with 1%N | 4%N | 5%N => true | _ => false end) all
+  else all.
 
 (* branch signature of a case (computed on the model): number of notifications that changed the standing
    choice of a set, selections answered from a fallback type, selections reporting no alive node,
-   last-resort selections, selections where the excluded node was the standing choice *)
-Fixpoint sig_steps (c : cfg) (steps : list obs_step) (g : group) (acc : N * N * N * N * N) : N * N * N * N * N :=
+   last-resort selections, selections where the excluded node was the standing choice, reads (selections and
+   direct set reads) made while some set's policy differs from the published policy *)
+Definition mismatch (g : group) : bool :=
+  match g_policy g with
+  | GSet p => existsb (fun t => negb (spol_eqb (a_policy (model_sets g t)) p)) all_types
+  | GFixed _ => false
+  end.
+
+Fixpoint sig_steps (c : cfg) (steps : list obs_step) (g : group) (acc : N * N * N * N * N * N) : N * N * N * N * N * N :=
   match steps with
   | [] => acc
-  | SOp o _ _ :: rest =>
-      let g' := fst (step c g o) in
-      let changed := match o with
-                     | ONotify _ t _ => negb (onat_eqb (a_best (model_sets g t)) (a_best (model_sets g' t)))
+  | SOp m _ _ :: rest =>
+      let g' := fst (xstep_raw c g m) in
+      let changed := match m with
+                     | MOp (ONotify _ t _) => negb (onat_eqb (a_best (model_sets g t)) (a_best (model_sets g' t)))
                      | _ => false end in
-      let '(a1, a2, a3, a4, a5) := acc in
-      sig_steps c rest g' ((if changed then a1 + 1 else a1)%N, a2, a3, a4, a5)
+      let '(a1, a2, a3, a4, a5, a6) := acc in
+      sig_steps c rest g' ((if changed then a1 + 1 else a1)%N, a2, a3, a4, a5, a6)
   | SSel rq strict excl _ :: rest =>
       let t := key_of rq in
       let m := select c g rq strict excl in
-      let '(a1, a2, a3, a4, a5) := acc in
+      let '(a1, a2, a3, a4, a5, a6) := acc in
       let first_empty := match g_policy g with
                          | GSet _ => match get_rand (model_sets g t) excl with [] => true | _ => false end
                          | GFixed _ => false end in
@@ -166,8 +211,13 @@ Fixpoint sig_steps (c : cfg) (steps : list obs_step) (g : group) (acc : N * N * 
                 | Some e, GSet (SMin _) => onat_eqb (a_best (model_sets g t)) (Some e)
                 | _, _ => false end in
       sig_steps c rest g ((a1, if fb then a2 + 1 else a2, if na then a3 + 1 else a3,
-                           if lr then a4 + 1 else a4, if eb then a5 + 1 else a5)%N)
+                           if lr then a4 + 1 else a4, if eb then a5 + 1 else a5,
+                           if mismatch g then a6 + 1 else a6)%N)
+  | SPanic _ :: _ => acc
+  | SGetMin _ _ _ _ :: rest | SGetRand _ _ _ :: rest =>
+      let '(a1, a2, a3, a4, a5, a6) := acc in
+      sig_steps c rest g ((a1, a2, a3, a4, a5, if mismatch g then a6 + 1 else a6)%N)
   end.
 
-Definition case_signature (oc : obs_case) : N * N * N * N * N :=
-  sig_steps (cfg_of oc) (oc_steps oc) (init_group (cfg_of oc) (oc_p0 oc)) (0, 0, 0, 0, 0)%N.
+Definition case_signature (oc : obs_case) : N * N * N * N * N * N :=
+  sig_steps (cfg_of oc) (oc_steps oc) (init_group (cfg_of oc) (oc_p0 oc)) (0, 0, 0, 0, 0, 0)%N.
